@@ -4,6 +4,8 @@ that visits each pickup and delivery once with every pickup before its delivery 
 finished episode (prefixed by the depot under the forced start).  With C01 the complete mask-confined
 episodes ARE the feasible solutions, so the optimum stays reachable.
 -/
+import Rl4co.Props.C03.Pdp
+import Rl4co.Proofs.TspfamOpt
 import Rl4co.Proofs.TspfamPdp
 import Rl4co.Props.C01.Pdp
 import Rl4co.Props.C02.Pdp
@@ -111,5 +113,70 @@ theorem complete_run_iff_feasible_force (i : Inst) (hf : i.force = true) (as : L
   ⟨fun ⟨_, h, hd⟩ => feasible_of_run_force i hf h hd, run_of_feasible_force i hf⟩
 
 example : Spec.Pdp.Feasible 2 [2, 1, 4, 3] := (Spec.Pdp.feasible_iff 2 _).mp (by decide)
+
+theorem idxOf_range' (n v : Nat) (h1 : 1 ≤ v) (h2 : v ≤ n) : (List.range' 1 n).idxOf v = v - 1 := by
+  induction n with
+  | zero => omega
+  | succ n ih =>
+    rw [List.range'_1_concat, List.idxOf_append]
+    by_cases hv : v ≤ n
+    · have : v ∈ List.range' 1 n := by simp [List.mem_range'_1]; omega
+      rw [if_pos this]; exact ih hv
+    · have : v ∉ List.range' 1 n := by simp [List.mem_range'_1]; omega
+      have hv' : v = 1 + n := by omega
+      rw [if_neg this]
+      subst hv'
+      simp
+
+/-- a feasible solution exists: all pickups in index order, then all deliveries -/
+theorem feasible_range' (h : Nat) : Spec.Pdp.Feasible h (List.range' 1 (2 * h)) := by
+  obtain ⟨hr, ho⟩ := (once_iff_perm (2 * h) _).mpr (List.Perm.refl _)
+  refine ⟨hr, ho, ?_⟩
+  intro p hp1 hp2
+  rw [idxOf_range' _ p hp1 (by omega), idxOf_range' _ (p + h) (by omega) (by omega)]
+  omega
+
+/-- **C05 (PDP, no forced start), the optimum stays reachable.** -/
+theorem opt_reachable (i : Inst) (hf : i.force = false) (hpos : 0 < i.h) :
+    ∃ cs s, Run env i (env.reset i) cs s ∧ env.done i s = true ∧
+      (∀ bs, Spec.Pdp.Feasible i.h bs → Spec.Pdp.objective i.D cs ≤ Spec.Pdp.objective i.D bs) ∧
+      (∀ bs t, Run env i (env.reset i) bs t → env.done i t = true →
+        Spec.Pdp.objective i.D cs ≤ Spec.Pdp.objective i.D bs) := by
+  obtain ⟨cs, hperm, hP, hmin⟩ := exists_min_filter_perm (List.range' 1 (2 * i.h)) (Spec.Pdp.feasible i.h)
+    (Spec.Pdp.objective i.D) _ (List.Perm.refl _) ((Spec.Pdp.feasible_iff _ _).mpr (feasible_range' i.h))
+  have hcs : Spec.Pdp.Feasible i.h cs := (Spec.Pdp.feasible_iff _ _).mp hP
+  have hfeas : ∀ bs, Spec.Pdp.Feasible i.h bs → Spec.Pdp.objective i.D cs ≤ Spec.Pdp.objective i.D bs :=
+    fun bs hb => hmin bs (spec_perm hb) ((Spec.Pdp.feasible_iff _ _).mpr hb)
+  obtain ⟨s, hrun, hd⟩ := run_of_feasible i hf hpos hcs
+  exact ⟨cs, s, hrun, hd, hfeas, fun bs t hr hdt => hfeas bs (feasible_of_run i hf hr hdt)⟩
+
+/-- **C05 (PDP, forced start), the optimum stays reachable** (episodes are `0 :: customers`). -/
+theorem opt_reachable_force (i : Inst) (hf : i.force = true) :
+    ∃ as s, Run env i (env.reset i) as s ∧ env.done i s = true ∧
+      (∀ bs, Spec.Pdp.FeasibleF i.h bs → Spec.Pdp.objective i.D as ≤ Spec.Pdp.objective i.D bs) ∧
+      (∀ bs t, Run env i (env.reset i) bs t → env.done i t = true →
+        Spec.Pdp.objective i.D as ≤ Spec.Pdp.objective i.D bs) := by
+  obtain ⟨cs, hperm, hP, hmin⟩ := exists_min_filter_perm (List.range' 1 (2 * i.h)) (Spec.Pdp.feasible i.h)
+    (fun bs => Spec.Pdp.objective i.D (0 :: bs)) _ (List.Perm.refl _)
+    ((Spec.Pdp.feasible_iff _ _).mpr (feasible_range' i.h))
+  have hcs : Spec.Pdp.Feasible i.h cs := (Spec.Pdp.feasible_iff _ _).mp hP
+  have hfeas : ∀ bs, Spec.Pdp.FeasibleF i.h bs →
+      Spec.Pdp.objective i.D (0 :: cs) ≤ Spec.Pdp.objective i.D bs := by
+    rintro bs ⟨bs', rfl, hb⟩
+    exact hmin bs' (spec_perm hb) ((Spec.Pdp.feasible_iff _ _).mpr hb)
+  obtain ⟨s, hrun, hd⟩ := run_of_feasible_force i hf ⟨cs, rfl, hcs⟩
+  exact ⟨0 :: cs, s, hrun, hd, hfeas, fun bs t hr hdt => hfeas bs (feasible_of_run_force i hf hr hdt)⟩
+
+/-- reward form (symmetric distances, no forced start) -/
+theorem opt_reachable_reward (i : Inst) (hf : i.force = false) (hs : ∀ a b, i.D a b = i.D b a)
+    (hpos : 0 < i.h) :
+    ∃ cs s, Run env i (env.reset i) cs s ∧ env.done i s = true ∧
+      (∀ bs t, Run env i (env.reset i) bs t → env.done i t = true → reward i bs ≤ reward i cs) := by
+  obtain ⟨cs, s, hrun, hd, _, h2⟩ := opt_reachable i hf hpos
+  refine ⟨cs, s, hrun, hd, ?_⟩
+  intro bs t hr hdt
+  rw [reward_eq_objective i hs (zero_not_mem_of_feasible (feasible_of_run i hf hr hdt)),
+    reward_eq_objective i hs (zero_not_mem_of_feasible (feasible_of_run i hf hrun hd))]
+  have := h2 bs t hr hdt; omega
 
 end Rl4co.Pdp
